@@ -320,6 +320,9 @@ impl Property for C15 {
     fn watchdog_secs(&self) -> u64 {
         900
     }
+    fn shrink_iters(&self) -> u32 {
+        100
+    }
     fn classes(&self) -> Vec<ClassSpec> {
         let mut v: Vec<ClassSpec> = SUITES.iter().map(|s| cls(s, 400, 20_000)).collect();
         v.push(cls("large_groups", 0, 40));
